@@ -50,8 +50,17 @@ def run(tier, seed, replay=None):
     ec, rex = c01.expr_cases(env, tier, rnd)
     per = 8
     n_expr = 40 if tier == "quick" else 600
-    for i in range(0, min(len(ec), n_expr * per), per):
-        p, _ = progen.expr_program(ec[i:i + per], opaque=False)
+    # arithmetic first, every (type, operator) stratum: that is where the compile-time evaluators and the run-time code
+    # can disagree (truncating vs flooring division, wrap at the declared width); comparisons and casts fill up
+    arith = [c for c in ec if c["op"] in ("+", "-", "*", "/", "%")]
+    seen, first, rest = {}, [], []
+    for c in arith:
+        k = (c["ty"], c["op"], c["a"]["neg"], c["b"]["neg"])
+        seen[k] = seen.get(k, 0) + 1
+        (first if seen[k] <= 1 else rest).append(c)
+    ec9 = first + rest + [c for c in ec if c not in arith]
+    for i in range(0, min(len(ec9), n_expr * per), per):
+        p, _ = progen.expr_program(ec9[i:i + per], opaque=False)
         bases.append((p, "expr-let:%d" % i, "accepted"))
     for i in range(6 if tier == "quick" else 60):
         s = seed * 100000 + 50000 + i
@@ -82,6 +91,13 @@ def run(tier, seed, replay=None):
             chosen += [d for d in ds if d not in chosen]
             for n, d in enumerate(chosen[:per_kind + 1]):
                 pairs.append((bi, kind, d, rewrites.apply(p, kind, d, tag=n)))
+            if kind == "LetToConst" and len(ds) > 1:
+                # every never-changed let of the program declared const at once: whole chains of initialisers become
+                # compile-time evaluable (a single site leaves the operands of the constant as plain lets)
+                q = p
+                for d in ds:
+                    q = rewrites.apply(q, kind, d)
+                pairs.append((bi, kind, {"shape": "all-" + "+".join(sorted({d["shape"] for d in ds}))}, q))
     if replay:
         with open(replay) as f:
             rp = json.load(f)["replay"]
